@@ -323,8 +323,12 @@ def load_known(prop):
 # The check object
 # ----------------------------------------------------------------------------------------------
 class Check:
-    def __init__(self, prop, tier, seed):
+    def __init__(self, prop, tier, seed, report_as=None):
+        # report_as: this Check is a SUB-CHECK of property `report_as` (e.g. the mechanism model C01M of C01): VIOLATION lines and
+        # known findings use that property id, and the evidence goes to work/sub-evidence/<prop>.json for the parent to merge
         self.prop, self.tier, self.seed = prop, tier, seed
+        self.report_as = report_as
+        self.subs = []
         self.t0 = time.time()
         self.rng = random.Random("%s-%s" % (prop, seed))
         self.failures = []          # (trigger, what, replay_obj)  direct oracle failed on the implementation
@@ -336,7 +340,7 @@ class Check:
         self.proof = None
         self.extra = {}
         self.assumptions = []
-        self.known = load_known(prop)
+        self.known = load_known(report_as or prop)
         self.known_hit = collections.OrderedDict()
 
     # -- bookkeeping -----------------------------------------------------------------------
@@ -348,6 +352,11 @@ class Check:
             self.dist[kind] += 1
         if sample is not None and len(self.samples) < 6:
             self.samples.append(sample)
+
+    def add_sub(self, prop):
+        """merge the evidence a sub-check (Check(prop, ..., report_as=self.prop)) has just written"""
+        with open(os.path.join(WORK, "sub-evidence", prop + ".json")) as f:
+            self.subs.append(json.load(f))
 
     def prove(self, timeout=1500):
         self.proof = build_proofs(self.prop, timeout=timeout)
@@ -388,7 +397,7 @@ class Check:
             seen_v.add(trigger)
             path = self._write_replay({"property": self.prop, "kind": "property-oracle-failed", "trigger": trigger,
                                        "what": what, "tier": self.tier, "seed": self.seed, "case": replay})
-            lines.append("VIOLATION property=%s replay=%s" % (self.prop, path))
+            lines.append("VIOLATION property=%s replay=%s" % (self.report_as or self.prop, path))
             nviol += 1
         for trigger, k in self.known_hit.items():
             line = k.get("line", "")
@@ -400,7 +409,7 @@ class Check:
                 path = self._write_replay({"property": self.prop, "kind": "proof-obligation-broken",
                                            "theorem_or_file": self.proof["failed_at"], "log_tail": self.proof["log_tail"],
                                            "note": "no failing input found by the search of this run"})
-                lines.append("VIOLATION property=%s replay=%s no-failing-input-found" % (self.prop, path))
+                lines.append("VIOLATION property=%s replay=%s no-failing-input-found" % (self.report_as or self.prop, path))
                 nviol += 1
             elif self.disagreements:
                 what, replay = self.disagreements[0]
@@ -409,7 +418,7 @@ class Check:
                                            "others": [r for _, r in self.disagreements[1:6]],
                                            "note": "model and implementation differ here; every decidable predicate of the "
                                                    "property still held on the implementation for all explored inputs"})
-                lines.append("VIOLATION property=%s replay=%s no-failing-input-found" % (self.prop, path))
+                lines.append("VIOLATION property=%s replay=%s no-failing-input-found" % (self.report_as or self.prop, path))
                 nviol += 1
         for l in lines:
             print(l)
@@ -437,9 +446,26 @@ class Check:
             "violations": nviol,
         }
         ev["coverage"].update(self.extra)
+        # merge sub-checks (their own theorems, cases and violations count towards this property)
+        for sub in self.subs:
+            sc = sub.get("coverage", {})
+            for k in ("obligations", "discharged", "evaluations", "distinct_nontrivial", "model_vs_impl_disagreements", "oracle_failures"):
+                ev["coverage"][k] = ev["coverage"].get(k, 0) + int(sc.get(k, 0))
+            ev["coverage"]["theorems"] = list(ev["coverage"].get("theorems", [])) + ["%s.%s" % (sub.get("property_id"), t) for t in sc.get("theorems", [])]
+            ev["coverage"].setdefault("sub_checks", {})[sub.get("property_id")] = {
+                "checker_cmd": sc.get("checker_cmd"), "rule": sc.get("rule"), "explanation": sc.get("explanation"),
+                "print_assumptions": sc.get("print_assumptions"), "input_distribution": sc.get("input_distribution"),
+                "samples": sc.get("samples", [])[:3], "wall_s": sub.get("wall_s"), "violations": sub.get("violations")}
+            ev["assumptions"] = list(ev["assumptions"]) + ["[%s] %s" % (sub.get("property_id"), a) for a in sub.get("assumptions", [])]
+            ev["violations"] += int(sub.get("violations", 0))
+            for t in sc.get("trusted_base", []):
+                if t not in ev["coverage"]["trusted_base"]:
+                    ev["coverage"]["trusted_base"].append(t)
         # evidence/ is only ever written from runs against /repo itself; mutation experiments (VERIF_REPO=<scratch copy>)
         # write to work/mut-evidence/ instead
         evdir = os.path.join(VERIF, "evidence") if os.path.realpath(REPO) == "/repo" else os.path.join(WORK, "mut-evidence")
+        if self.report_as or not re.fullmatch(r"C\d\d", self.prop):
+            evdir = os.path.join(WORK, "sub-evidence")   # not one of the 20 properties: a sub-check
         os.makedirs(evdir, exist_ok=True)
         with open(os.path.join(evdir, self.prop + ".json"), "w") as f:
             json.dump(ev, f, indent=1, default=repr)
